@@ -1,9 +1,291 @@
 //! Properties with their own drivers (not the generic full-world history runner).
 
+use crate::driver::{run_sharded, HistoryReport};
+use crate::mon::{decade, Out};
+use crate::props::finish;
+use crate::rng::Rng;
+use basset_sei_validators_registry::common::{calculate_delegations, calculate_undelegations};
+use basset_sei_validators_registry::registry::ValidatorResponse;
+use cosmwasm_std::Uint128;
+use serde_json::json;
+
 pub fn ids() -> Vec<&'static str> {
-    vec![]
+    let mut v = vec!["C12"];
+    v.extend(crate::matrix::ids());
+    v
 }
 
-pub fn run(_id: &str, _tier: &str, _seed: u64, _threads: usize, _histories: Option<u64>, _replay: Option<&str>) -> Option<i32> {
-    None
+pub fn run(id: &str, tier: &str, seed: u64, threads: usize, histories: Option<u64>, replay: Option<&str>) -> Option<i32> {
+    match id {
+        "C12" => Some(run_c12(tier, seed, threads, histories, replay)),
+        _ => crate::matrix::run(id, tier, seed, threads, histories, replay),
+    }
+}
+
+// ------------------------------------------------------------------ C12
+
+fn passes() -> Option<u64> {
+    #[cfg(krp_verif)]
+    {
+        Some(basset_sei_validators_registry::common::verif_hook::UNDELEGATION_PASSES.with(|c| c.get()))
+    }
+    #[cfg(not(krp_verif))]
+    {
+        None
+    }
+}
+
+fn gen_list(r: &mut Rng) -> (Vec<u128>, &'static str) {
+    let n = match r.below(10) {
+        0 => 0,
+        1 => 1,
+        2 => 2,
+        3 => 64,
+        _ => r.range(1, 64) as usize,
+    };
+    if n == 0 {
+        return (vec![], "empty");
+    }
+    let cap: u128 = (u128::MAX >> 1) / (n as u128 + 1);
+    let (mut v, pat): (Vec<u128>, &'static str) = match r.below(9) {
+        0 => (vec![0; n], "zeros"),
+        1 => (vec![1; n], "ones"),
+        2 => {
+            let x = r.log_uniform(cap);
+            (vec![x; n], "equal")
+        }
+        3 => {
+            let mut v = vec![r.range128(0, 5); n];
+            let i = r.below(n as u64) as usize;
+            v[i] = r.log_uniform(cap);
+            (v, "one_giant")
+        }
+        4 => {
+            let mut x = r.log_uniform(cap.min(1 << 100));
+            let mut v = vec![];
+            for _ in 0..n {
+                v.push(x);
+                x /= 2;
+            }
+            (v, "geometric")
+        }
+        5 => ((0..n).map(|_| r.range128(0, 3)).collect(), "tiny"),
+        6 => ((0..n).map(|_| if r.chance(1, 2) { 0 } else { r.log_uniform(cap) }).collect(), "zeros_and_random"),
+        7 => {
+            let base = r.log_uniform(cap.min(1 << 90));
+            ((0..n).map(|_| base + r.range128(0, 2)).collect(), "near_equal_ties")
+        }
+        _ => ((0..n).map(|_| r.log_uniform(cap)).collect(), "random"),
+    };
+    let order = match r.below(3) {
+        0 => {
+            v.sort();
+            "asc"
+        }
+        1 => {
+            v.sort();
+            v.reverse();
+            "desc"
+        }
+        _ => {
+            r.shuffle(&mut v);
+            "shuffled"
+        }
+    };
+    let _ = order;
+    (v, pat)
+}
+
+fn order_class(v: &[u128]) -> u8 {
+    let asc = v.windows(2).all(|w| w[0] <= w[1]);
+    let desc = v.windows(2).all(|w| w[0] >= w[1]);
+    match (asc, desc) {
+        (true, true) => 0,
+        (true, false) => 1,
+        (false, true) => 2,
+        _ => 3,
+    }
+}
+
+fn c12_batch(seed: u64, index: u64, per_batch: u64) -> HistoryReport {
+    let mut r = Rng::derive(seed, 12, index);
+    let mut out = Out::default();
+    let mut log = vec![];
+    let mut steps = 0;
+    for case in 0..per_batch {
+        let (ds, pat) = gen_list(&mut r);
+        let n = ds.len() as u128;
+        let t: u128 = ds.iter().sum();
+        let vs: Vec<ValidatorResponse> = ds.iter().enumerate().map(|(i, d)| ValidatorResponse { total_delegated: Uint128::new(*d), address: format!("v{}", i) }).collect();
+        let headroom = (u128::MAX >> 1) - t;
+        // ---------------- delegation plan
+        let amount = match r.below(8) {
+            0 => 0,
+            1 => 1,
+            2 => t.min(headroom),
+            3 => (t + 1).min(headroom),
+            4 => n.min(headroom),
+            5 => headroom,
+            _ => r.log_uniform(headroom.max(1)).min(headroom),
+        };
+        steps += 1;
+        let res = std::panic::catch_unwind(|| calculate_delegations(Uint128::new(amount), vs.as_slice()));
+        let sample = json!({"fn": "calculate_delegations", "delegations": ds.iter().take(8).map(|x| x.to_string()).collect::<Vec<_>>(), "n": ds.len(), "amount": amount.to_string(), "pattern": pat});
+        if log.len() < 6 {
+            log.push(sample.clone());
+        }
+        let mut fail = |out: &mut Out, clause: &str, msg: String| {
+            out.violation("C12", clause, format!("{} :: case {} of batch {}: delegations {:?}", msg, case, index, ds));
+        };
+        match res {
+            Err(_) => fail(&mut out, "delegation_no_panic", format!("calculate_delegations({}) panicked", amount)),
+            Ok(Err(e)) => {
+                if !ds.is_empty() {
+                    fail(&mut out, "delegation_fails_only_when_empty", format!("calculate_delegations({}) failed: {}", amount, e));
+                } else {
+                    out.count("c12.delegation_empty_list_rejected");
+                }
+            }
+            Ok(Ok((rem, plan))) => {
+                if ds.is_empty() {
+                    fail(&mut out, "delegation_fails_only_when_empty", "accepted an empty list".into());
+                } else {
+                    let sum: u128 = plan.iter().map(|x| x.u128()).sum();
+                    if !rem.is_zero() || sum != amount || plan.len() != ds.len() {
+                        fail(&mut out, "delegation_distributes_everything", format!("amount {} -> plan sums to {}, remainder {}", amount, sum, rem));
+                    }
+                    let total = t + amount;
+                    let ceil_even = total / n + if total % n == 0 { 0 } else { 1 };
+                    let mut skipped = 0;
+                    for (d, p) in ds.iter().zip(plan.iter()) {
+                        let p = p.u128();
+                        if d * n > total {
+                            skipped += 1;
+                            if p != 0 {
+                                fail(&mut out, "nothing_above_even_share", format!("amount {}: validator holding {} (> even share {}/{}) receives {}", amount, d, total, n, p));
+                            }
+                        }
+                        if p > 0 && d + p > ceil_even {
+                            fail(&mut out, "not_lifted_above_even_share", format!("amount {}: validator {} + {} exceeds ceil(even share) {}", amount, d, p, ceil_even));
+                        }
+                    }
+                    out.count("c12.delegation_plans_checked");
+                    if skipped > 0 {
+                        out.count("c12.delegation_plans_with_skipped_validators");
+                    }
+                    out.distinct(&("deleg", ds.len().min(65), pat, order_class(&ds), decade(amount) / 3, skipped.min(3)));
+                }
+            }
+        }
+        // ---------------- undelegation plan
+        let amount = match r.below(9) {
+            0 => 0,
+            1 => 1,
+            2 => t,
+            3 => t.saturating_add(1),
+            4 => t.saturating_sub(1),
+            5 => t / 2,
+            6 => t.saturating_sub(n),
+            _ => r.range128(0, t),
+        };
+        steps += 1;
+        let vsc = vs.clone();
+        let res = std::panic::catch_unwind(move || {
+            let r = calculate_undelegations(Uint128::new(amount), vsc);
+            (r, passes())
+        });
+        if log.len() < 12 {
+            log.push(json!({"fn": "calculate_undelegations", "delegations": ds.iter().take(8).map(|x| x.to_string()).collect::<Vec<_>>(), "n": ds.len(), "amount": amount.to_string(), "pattern": pat}));
+        }
+        match res {
+            Err(_) => fail(&mut out, "undelegation_no_panic", format!("calculate_undelegations({}) panicked", amount)),
+            Ok((Err(e), _)) => {
+                let e = e.to_string();
+                if e.contains("verif: pass limit") {
+                    fail(&mut out, "undelegation_terminates", format!("calculate_undelegations({}) did not finish within 64 passes", amount));
+                } else if !ds.is_empty() && amount <= t {
+                    fail(&mut out, "undelegation_fails_only_when_impossible", format!("calculate_undelegations({}) of total {} failed: {}", amount, t, e));
+                } else if ds.is_empty() {
+                    out.count("c12.undelegation_empty_list_rejected");
+                } else {
+                    out.count("c12.undelegation_above_total_rejected");
+                }
+            }
+            Ok((Ok(plan), np)) => {
+                if ds.is_empty() || amount > t {
+                    fail(&mut out, "undelegation_fails_only_when_impossible", format!("calculate_undelegations({}) of total {} was accepted", amount, t));
+                } else {
+                    let sum: u128 = plan.iter().map(|x| x.u128()).sum();
+                    if sum != amount || plan.len() != ds.len() {
+                        fail(&mut out, "undelegation_removes_exactly", format!("amount {} -> plan sums to {}", amount, sum));
+                    }
+                    let floor_even = (t - amount) / n;
+                    for (d, p) in ds.iter().zip(plan.iter()) {
+                        let p = p.u128();
+                        if p > *d {
+                            fail(&mut out, "undelegation_within_holdings", format!("amount {}: takes {} from a validator holding {}", amount, p, d));
+                        } else if p > 0 && d - p < floor_even {
+                            fail(&mut out, "not_pushed_below_even_share", format!("amount {}: validator {} - {} falls below floor(even share) {}", amount, d, p, floor_even));
+                        }
+                    }
+                    match np {
+                        Some(k) => {
+                            if k > n as u64 + 1 {
+                                fail(&mut out, "undelegation_terminates", format!("amount {}: {} passes for {} validators", amount, k, n));
+                            }
+                            out.count("c12.undelegation_pass_counts_observed");
+                            if k >= 2 {
+                                out.count("c12.undelegation_multi_pass");
+                            }
+                        }
+                        None => out.inconclusive.push("pass counter hook not compiled in (build without --cfg krp_verif)".into()),
+                    }
+                    out.count("c12.undelegation_plans_checked");
+                    out.distinct(&("undeleg", ds.len().min(65), pat, order_class(&ds), decade(amount) / 3, amount == t, amount == 0));
+                }
+            }
+        }
+        if !out.violations.is_empty() {
+            break;
+        }
+    }
+    HistoryReport { index, out, steps, ok_steps: steps, cfg: format!("C12 batch {} of {} generated inputs", index, per_batch), log, op_kinds: Default::default() }
+}
+
+fn run_c12(tier: &str, seed: u64, threads: usize, histories: Option<u64>, replay: Option<&str>) -> i32 {
+    let t0 = std::time::Instant::now();
+    let per_batch = 2_000u64;
+    let n = histories.unwrap_or(if tier == "quick" { 100 } else { 2_500 });
+    let mut seed = seed;
+    let sum = if let Some(path) = replay {
+        let v: serde_json::Value = match std::fs::read_to_string(path).ok().and_then(|s| serde_json::from_str(&s).ok()) {
+            Some(v) => v,
+            None => return 2,
+        };
+        seed = v["seed"].as_u64().unwrap_or(seed);
+        let idx = v["history_index"].as_u64().unwrap_or(0);
+        run_sharded(1, 1, |_| c12_batch(seed, idx, per_batch))
+    } else {
+        run_sharded(n, threads, |i| c12_batch(seed, i, per_batch))
+    };
+    let required: &[(&str, u64)] = &[
+        ("c12.delegation_plans_checked", 1),
+        ("c12.delegation_plans_with_skipped_validators", 1),
+        ("c12.delegation_empty_list_rejected", 1),
+        ("c12.undelegation_plans_checked", 1),
+        ("c12.undelegation_above_total_rejected", 1),
+        ("c12.undelegation_empty_list_rejected", 1),
+        ("c12.undelegation_pass_counts_observed", 1),
+    ];
+    finish(
+        "C12",
+        tier,
+        seed,
+        sum,
+        required,
+        "direct calls of the two pub planning functions on generated validator lists (n = 0..64; zeros, ones, equal, one giant, geometric, tiny, ties, random up to 2^127/n; ascending / descending / shuffled) and amounts (0, 1, T, T+-1, n, whole headroom, log-uniform); distinct = (function, n, pattern, order class, magnitude class of amount, boundary flags)",
+        t0,
+        replay.is_some(),
+        json!({"inputs_per_batch": per_batch}),
+    )
 }
